@@ -35,6 +35,18 @@ type unpackCtx struct {
 	Info     ssa.Value       // the UnpackInfo result in Unpack
 	CtorOK   []Edge          // edges on which the constructor's error is nil
 	CtorErr  []Edge
+	VCalls   []vsite         // calls Unpack makes directly or through private helpers
+}
+
+// siteOf: the call instruction in Unpack through which the given call (in
+// Unpack or a private helper) is made.
+func (u *unpackCtx) siteOf(in ssa.CallInstruction) ssa.CallInstruction {
+	for _, v := range u.VCalls {
+		if v.Inner == in {
+			return v.Site
+		}
+	}
+	return nil
 }
 
 func getUnpackCtx(c *Checker, rule string) *unpackCtx {
@@ -71,6 +83,7 @@ func getUnpackCtx(c *Checker, rule string) *unpackCtx {
 	}
 	u.Info = extractOf(u.CtorCall, 0)
 	u.CtorOK, u.CtorErr = okEdgesOfCall(u.CtorCall)
+	u.VCalls = p.vcalls(u.Unpack, 3)
 	return u
 }
 
@@ -545,26 +558,31 @@ func ruleC01Walk(c *Checker) {
 	F := u.Ctor
 	fname := p.FuncName(F)
 	var lstats []*ssa.Call
-	for _, ci := range callsTo(F, func(o *types.Func) bool { return isFunc(o, "os", "Lstat") }) {
-		if call, ok := ci.(*ssa.Call); ok && inLoop(call.Block()) {
-			lstats = append(lstats, call)
+	for H := range p.family(F) {
+		for _, ci := range callsTo(H, func(o *types.Func) bool { return isFunc(o, "os", "Lstat") }) {
+			if call, ok := ci.(*ssa.Call); ok && inLoop(call.Block()) {
+				lstats = append(lstats, call)
+			}
 		}
 	}
+	sort.Slice(lstats, func(i, j int) bool { return lstats[i].Pos() < lstats[j].Pos() })
 	if len(lstats) == 0 {
-		c.fail(R, fname, "lstat walk", p.Pos(F.Pos()), "no os.Lstat call inside a loop in the constructor: the per-component symlink walk is missing (os.Stat follows links and does not count)")
+		c.fail(R, fname, "lstat walk", p.Pos(F.Pos()), "no os.Lstat call inside a loop in the constructor (or its private helpers): the per-component symlink walk is missing (os.Stat follows links and does not count)")
 		return
 	}
 	succ := successReturns(F)
+	vc := p.vcalls(F, 3)
 	for _, ls := range lstats {
+		H := ls.Parent()
 		pos := p.Pos(ls.Pos())
 		// (1) walked path is sound
-		ok, why := walkSound(ls.Call.Args[0], F, map[ssa.Value]bool{})
+		ok, why := walkSound(ls.Call.Args[0], H, map[ssa.Value]bool{})
 		c.check(ok, R, fname, "walked path", pos, "Lstat argument is dst joined with components split from the cleaned relative path", "the walked path is not derived from the cleaned entry path: "+why)
 		// (2) symlink edge -> error
 		fi := extractOf(ls, 0)
 		found := false
 		if fi != nil {
-			tE, _ := condEdges(F, func(v ssa.Value) bool { return isSymlinkModeTest(v, fi) })
+			tE, _ := condEdges(H, func(v ssa.Value) bool { return isSymlinkModeTest(v, fi) })
 			for _, e := range tE {
 				found = true
 				okr, r := returnsNonNilErrorFrom(e.To())
@@ -578,14 +596,38 @@ func ruleC01Walk(c *Checker) {
 		if !found {
 			c.fail(R, fname, "symlink edge", pos, "the Lstat result is not tested for ModeSymlink")
 		}
-		// (3) the walk precedes every success return: success return reachable only through the loop header
-		for i, r := range succ {
-			c.check(dominatesBlock(loopHeadOf(ls.Block()), r.Block()), R, fname, fmt.Sprintf("walk before success %d", i), p.Pos(r.Pos()),
-				"the walk loop dominates the success return", "a success return can be reached without entering the symlink walk")
+		// (3) the walk precedes every success return of the constructor
+		if H == F {
+			for i, r := range succ {
+				c.check(dominatesBlock(loopHeadOf(ls.Block()), r.Block()), R, fname, fmt.Sprintf("walk before success %d", i), p.Pos(r.Pos()),
+					"the walk loop dominates the success return", "a success return can be reached without entering the symlink walk")
+			}
+		} else {
+			var site *ssa.Call
+			for _, v := range vc {
+				if v.Inner == ssa.CallInstruction(ls) {
+					site, _ = v.Site.(*ssa.Call)
+				}
+			}
+			if site == nil {
+				c.fail(R, fname, "walk helper call", pos, "the helper containing the symlink walk is not called from the constructor")
+			} else {
+				okE, errE := okEdgesOfCall(site)
+				okErr := len(errE) > 0
+				for _, e := range errE {
+					if r2, _ := returnsNonNilErrorFrom(e.To()); !r2 {
+						okErr = false
+					}
+				}
+				c.check(okErr, R, fname, "walk helper error returned", p.Pos(site.Pos()), "a failed walk makes the constructor fail", "the result of the symlink walk helper is ignored")
+				for i, r := range succ {
+					c.check(guarded(r.Block(), okE), R, fname, fmt.Sprintf("walk before success %d", i), p.Pos(r.Pos()), "the success return lies past the walk helper's ok edge", "a success return can be reached without the symlink walk having succeeded")
+				}
+			}
 		}
 		// (4) an Lstat error other than not-exist returns an error
 		if ev := extractOf(ls, 1); ev != nil {
-			nn, _ := errCheckEdges(F, ev)
+			nn, _ := errCheckEdges(H, ev)
 			for _, e := range nn {
 				okr, _ := returnsNonNilErrorFrom(e.To())
 				c.check(okr, R, fname, "lstat error edge", pos, "an Lstat failure returns an error", "an Lstat failure does not lead to an error return")
@@ -659,7 +701,7 @@ func isSymlinkModeTest(v ssa.Value, fi ssa.Value) bool {
 // cleanedValue: the value is the result of a lexically cleaning library call
 // (or a slice / prefix-trim / phi of such).
 func cleanedValue(v ssa.Value, seen map[ssa.Value]bool) bool {
-	v = canon(v)
+	v = cx(v)
 	if seen[v] {
 		return true
 	}
@@ -682,6 +724,25 @@ func cleanedValue(v ssa.Value, seen map[ssa.Value]bool) bool {
 				return true
 			}
 		}
+		// result of a module function: every value it can return (on success) is cleaned
+		if g := cl.Common().StaticCallee(); g != nil && gp != nil && gp.InModule(g) && len(seen) < 64 {
+			idx := 0
+			if ex, ok := v.(*ssa.Extract); ok {
+				idx = ex.Index
+			}
+			all, n := true, 0
+			for _, r := range successReturns(g) {
+				for _, rv := range returnValues(r, idx) {
+					n++
+					if rv == nil || !cleanedValue(rv, seen) {
+						all = false
+					}
+				}
+			}
+			if all && n > 0 {
+				return true
+			}
+		}
 		if isFunc(o, "strings", "TrimPrefix") || isFunc(o, "strings", "TrimSuffix") {
 			return cleanedValue(cl.Call.Args[0], seen)
 		}
@@ -692,7 +753,7 @@ func cleanedValue(v ssa.Value, seen map[ssa.Value]bool) bool {
 // walkSound: the Lstat argument is dst, or Join of walk-sound values and
 // components split from a cleaned value, or Dir/Clean of a cleaned value.
 func walkSound(v ssa.Value, F *ssa.Function, seen map[ssa.Value]bool) (bool, string) {
-	v = canon(v)
+	v = cx(v)
 	if seen[v] {
 		return true, ""
 	}
@@ -711,7 +772,11 @@ func walkSound(v ssa.Value, F *ssa.Function, seen map[ssa.Value]bool) (bool, str
 		if x.Op == token.MUL {
 			if ia, ok := x.X.(*ssa.IndexAddr); ok {
 				// element of a slice: must be Split(cleaned, sep)
-				if cl := callOf(canon(ia.X)); cl != nil && (isFunc(calleeObj(cl), "strings", "Split") || isFunc(calleeObj(cl), "strings", "SplitN")) {
+				base := canon(ia.X)
+				if sl, ok := base.(*ssa.Slice); ok {
+					base = canon(sl.X) // components[:len-1]
+				}
+				if cl := callOf(base); cl != nil && (isFunc(calleeObj(cl), "strings", "Split") || isFunc(calleeObj(cl), "strings", "SplitN")) {
 					if cleanedValue(cl.Call.Args[0], map[ssa.Value]bool{}) {
 						return true, ""
 					}
@@ -725,7 +790,7 @@ func walkSound(v ssa.Value, F *ssa.Function, seen map[ssa.Value]bool) (bool, str
 		if al, ok := x.X.(*ssa.Alloc); ok {
 			okAll := true
 			why := ""
-			eachInstr(F, func(in ssa.Instruction) {
+			eachInstr(al.Parent(), func(in ssa.Instruction) {
 				if st, ok := in.(*ssa.Store); ok {
 					if ia, ok := st.Addr.(*ssa.IndexAddr); ok && ia.X == al {
 						if ok2, w := walkSound(st.Val, F, seen); !ok2 {
@@ -798,26 +863,32 @@ func ruleC01NoFollow(c *Checker) {
 		"no call to a link-remover helper on the entry path found in Unpack: a later file or directory entry is written through an earlier symlink of the same name")
 	isSafe := func(in ssa.Instruction) bool { return p.guardedC(in.Block(), safe) }
 
-	// top-level instructions in Unpack that reach a follow-sink on the entry's own path
+	// calls (direct or through private helpers) that follow a link on the entry's own path
+	for _, v := range u.VCalls {
+		o := calleeObj(v.Inner)
+		cls, s := classifyFS(o)
+		if cls != "sink" || !s.Follows {
+			continue
+		}
+		site, _ := v.Site.(*ssa.Call)
+		if site == nil {
+			continue
+		}
+		for _, ai := range s.PathArgs {
+			if ai >= len(v.Args) || !isExactlyInfoPath(p, v.Args[ai], u) {
+				continue // e.g. MkdirAll(filepath.Dir(info.Path)): parents are covered by the walk
+			}
+			if in, ok := v.Inner.(*ssa.Call); ok && fullName(o) == "os.OpenFile" && openFlagsNoFollow(in) {
+				c.pass(R, uname, "OpenFile(O_EXCL|O_NOFOLLOW)", p.Pos(v.Inner.Pos()), "flags refuse an existing link")
+				continue
+			}
+			c.check(isSafe(site), R, uname, shortCallee(fullName(o))+"(entry path)", p.Pos(v.Inner.Pos()),
+				"after the ok edge of the link remover on the same path", "follows a symlink left under the entry's own name by an earlier entry (write/chmod/chtimes lands outside dst)")
+		}
+	}
 	for _, ci := range callsIn(U) {
 		call, ok := ci.(*ssa.Call)
 		if !ok {
-			continue
-		}
-		o := calleeObj(call)
-		cls, s := classifyFS(o)
-		if cls == "sink" && s.Follows {
-			for _, ai := range s.PathArgs {
-				if !isExactlyInfoPath(p, call.Call.Args[ai], u) {
-					continue // e.g. MkdirAll(filepath.Dir(info.Path)): parents are covered by the walk
-				}
-				if fullName(o) == "os.OpenFile" && openFlagsNoFollow(call) {
-					c.pass(R, uname, "OpenFile(O_EXCL|O_NOFOLLOW)", p.Pos(call.Pos()), "flags refuse an existing link")
-					continue
-				}
-				c.check(isSafe(call), R, uname, shortCallee(fullName(o))+"(entry path)", p.Pos(call.Pos()),
-					"after the ok edge of the link remover on the same path", "follows a symlink left under the entry's own name by an earlier entry (write/chmod/chtimes lands outside dst)")
-			}
 			continue
 		}
 		// calls to module functions that reach follow-sinks on the receiver's Path
@@ -916,7 +987,7 @@ func pathOfInfo(p *Prog, v ssa.Value, u *unpackCtx) bool {
 
 // isExactlyInfoPath: v is info.Path itself (not Dir of it).
 func isExactlyInfoPath(p *Prog, v ssa.Value, u *unpackCtx) bool {
-	v = canon(v)
+	v = p.canonX(v)
 	switch x := v.(type) {
 	case *ssa.UnOp:
 		if fa, ok := x.X.(*ssa.FieldAddr); ok && x.Op == token.MUL {
@@ -1159,4 +1230,36 @@ func cellNonNilAt(fn *ssa.Function, cell ssa.Value, b *ssa.BasicBlock) bool {
 		}
 	}
 	return false
+}
+
+// guardedSomewhereOnEveryRoute: on every call route from top to the
+// instruction, pred holds at the instruction itself or at some call site on
+// the way (a guard inside an intermediate helper counts).
+func (p *Prog) guardedSomewhereOnEveryRoute(in ssa.Instruction, top *ssa.Function, pred func(ssa.Instruction) bool, depth int) bool {
+	if pred(in) {
+		return true
+	}
+	fn := in.Parent()
+	if fn == top || depth == 0 {
+		return false
+	}
+	var sites []ssa.Instruction
+	for _, cs := range p.callersOf(fn) {
+		sites = append(sites, cs)
+	}
+	for _, mc := range closureSites(fn) {
+		sites = append(sites, mc)
+	}
+	reachTop := p.reach(top)
+	n := 0
+	for _, s := range sites {
+		if !reachTop[s.Parent()] {
+			continue
+		}
+		n++
+		if !p.guardedSomewhereOnEveryRoute(s, top, pred, depth-1) {
+			return false
+		}
+	}
+	return n > 0
 }
